@@ -9,6 +9,7 @@ from vlib import Case, Rng
 
 ID = "C04"
 PROPS_MODULE = "AmqModel.Props.C04"
+EXTRA_PROPS_MODULES = ["AmqModel.Props.Pass"]      # the registrations at the end of every pass of run_io_loop (Model/Pass.lean): no lost wake-up
 NONTRIVIAL_RULE = ">= 2 channels with replies outstanding at the same time"
 MODEL_SCOPE = "connection_state.rs generic-reply / consume-ok / get / cancel-ok / close-ok arms, slot lookup, reply queues; io_loop_handle.rs send/recv halves; the typed decoding of replies (TryFromAmqpClass) is exercised by the api engine"
 ASSUMPTIONS = ["A2 queues are FIFO; the server answers each channel's calls in order (any order across channels)"]
@@ -49,8 +50,14 @@ def gen(tier, seed):
     return cases
 
 
+def overlap_cases(tier):
+    return [Case("o%d%s" % (i, "a" if w else ""), ["run %d %d%s" % (pg + (w,))], {"keep_prefix": 0}) for w in ("", " after") for i, pg in enumerate([(300, 60), (200, 100), (0, 0), (150, 20)] + ([] if tier == "quick" else [(400, 200), (100, 50), (250, 10), (50, 0)]))]
+
+
 def suites(tier, seed):
-    return [Suite("overlapping-calls-e2e", "overlap", lambda: [Case("o%d%s" % (i, "a" if w else ""), ["run %d %d%s" % (pg + (w,))], {"keep_prefix": 0}) for w in ("", " after") for i, pg in enumerate([(300, 60), (200, 100), (0, 0), (150, 20)] + ([] if tier == "quick" else [(400, 200), (100, 50), (250, 10), (50, 0)]))],
+    import passlog
+    return [passlog.suite("loop-passes", "overlap", lambda: overlap_cases(tier), "the overlapping-calls-e2e cases"),
+            Suite("overlapping-calls-e2e", "overlap", lambda: overlap_cases(tier),
                   monitor=lambda c, il, sl: None if ([l for l in il if l and not l.startswith("#")] == ["call1 ok q-1", "call2 ok q-2", "broker-saw-declares 2"]) else (
                       "two calls overlapping on two channels (the second request arrives while the pass that took the first is finishing; the broker answers when it has both, the later one first): %s" % [l for l in il if not l.startswith("#")], "c04-overlap"),
                   nontrivial=lambda c, il: True, compare=False, shards=4, timeout=120, shrink=False,
